@@ -33,6 +33,7 @@ const (
 	KUntypedNil
 	KWrap // a struct with exactly one field (named or embedded), represented by that field
 	KMap  // map[Variable]*Term, represented by the model's dbindings
+	KRec  // a struct with several fields represented by a record of the model (table recReps)
 )
 
 // T is a Go type.  Name is the declared name of a named type ("" otherwise).
@@ -41,9 +42,19 @@ type T struct {
 	Name     string
 	Elem     *T
 	Len      int64
-	Field    string // KWrap: the name of the single field (the type name when embedded)
-	Embedded bool   // KWrap: the field is embedded (its methods are promoted)
-	Key      *T     // KMap
+	Field    string     // KWrap: the name of the single field (the type name when embedded)
+	Embedded bool       // KWrap: the field is embedded (its methods are promoted)
+	Key      *T         // KMap
+	Fields   []RecField // KRec: the fields in declaration order
+	Ctor     string     // KRec: the constructor of the model's record
+	Coq      string     // KRec: the model's record type
+}
+
+// RecField is one field of a struct represented by a record of the model.
+type RecField struct {
+	name string
+	typ  *T
+	proj string // the projection of the model's record
 }
 
 var (
@@ -241,6 +252,8 @@ func coqType(t *T) string {
 		return coqType(t.Elem)
 	case KMap:
 		return "dbindings"
+	case KRec:
+		return t.Coq
 	}
 	return "UNSUPPORTED"
 }
@@ -355,6 +368,33 @@ func fillPat(pat, binder string) string {
 	return pat
 }
 
+// ---------- structs represented by records of the model ----------
+
+// recRep: a struct type of the package with several fields, represented by a Record of
+// the model; field reads are the projections, a composite literal is the constructor.
+// The table is CHECKED against the source (Pkg.resolveRec): the struct must declare
+// exactly these fields, with these type expressions, in this order.
+type recRep struct {
+	name, coq, ctor string
+	fields          []recFieldRep
+}
+
+type recFieldRep struct{ goName, goType, proj string }
+
+var recReps = []*recRep{
+	// Model/DTerm.v: Record dpred := { dp_name : N; dp_terms : list dterm }
+	{"Predicate", "dpred", "Build_dpred", []recFieldRep{{"Name", "String", "dp_name"}, {"Terms", "[]Term", "dp_terms"}}},
+}
+
+func recFor(name string) *recRep {
+	for _, r := range recReps {
+		if r.name == name {
+			return r
+		}
+	}
+	return nil
+}
+
 // ---------- the package ----------
 
 type Pkg struct {
@@ -366,6 +406,7 @@ type Pkg struct {
 	vars         map[string]*ast.ValueSpec
 	varIdx       map[string]int
 	ifaceChecked map[string]error
+	recMemo      map[string]*T
 }
 
 type constInfo struct {
